@@ -89,7 +89,8 @@ def _prepare_validator_of_literal(
     def validator(
         value: Any,
     ) -> Any:
-        if value in elements:
+        # PEP 586: a literal is its value *and* its type - Literal[1] is neither True nor 1.0
+        if any(value == element and type(value) is type(element) for element in elements):
             return value
 
         else:
